@@ -121,7 +121,7 @@ PROPS = {
     "C11": dict(
         title="A setup node runs at most once per DAG instance and its value is reused",
         core=["OWN-WRITEBACK", "OWN-SETUP", "SCH-PRUNE"],
-        aux=["OWN-DEEPCOPY", "VAL-SETUPDEP", "VAL-SETUPARG", "SIB-DAG", "SIB-FWD", "GT-PRESENCE", "OWN-SCHEDCOPY", "VAL-GENREUSE"],
+        aux=["OWN-DEEPCOPY", "VAL-SETUPDEP", "VAL-SETUPARG", "SIB-DAG", "SIB-FWD", "GT-PRESENCE", "OWN-SCHEDCOPY", "VAL-GENREUSE", "GT-ALIASNORM"],
         explanation="Who-may-write: the only element write into a DAG's results on a run path is the guarded setup write-back and "
                     "the only re-binding is setup() on a setup-only graph; pruning by membership precedes scheduling; build-time "
                     "refusals present; selection forwarded.",
@@ -131,7 +131,7 @@ PROPS = {
     "C12": dict(
         title="target / exclude / root selection executes exactly the documented closure",
         core=["GT-SELECT"],
-        aux=["GT-ALIAS", "REF-MAT", "SIB-FWD", "GT-PRESENCE", "GT-POP", "REF-DEREF"],
+        aux=["GT-ALIAS", "REF-MAT", "SIB-FWD", "GT-PRESENCE", "GT-POP", "REF-DEREF", "GT-ALIASNORM"],
         explanation="Three guarded steps in dominance order roots -> exclude -> targets, each with the right closure primitive "
                     "(descendants incl. self / ancestors incl. self); alias order node, tag, id; the ValueErrors are reachable and "
                     "unconditional under their tests; unexecuted ids read as None.",
